@@ -8,13 +8,19 @@ under three iteration orders of the candidate set) on
     adds seeded slices of the n = 5 space),
 (b) seeded random rooted digraphs with 2..14 nodes, back-edge probability swept
     over 0..0.5, node numbers shuffled,
-(c) [third audit] eleven graph families (lib/props/c15gen.py: reverse-numbered
-    chains, deep chains, joins with many predecessors, nested loops, two-entry
-    rings, ladders, trees with joins, dense and sparse random graphs) at 15..40
-    nodes, at 63/64/65 nodes and at 127/128/129, 255/256/257 and 300 nodes,
+(c) [third audit] twelve graph families (lib/props/c15gen.py: reverse-numbered
+    chains, deep chains, joins with many predecessors, nodes with many joins in
+    their frontier, nested loops, two-entry rings, ladders, trees with joins,
+    dense and sparse random graphs) at 15..40 nodes, at 63/64/65 nodes, at
+    127/128/129, 255/256/257 and 300 nodes (ten families above 129 nodes:
+    `dense` and `two_level_join` have tens of thousands of edges there), at
+    scattered sizes in between [fourth audit] and, for four families, at
+    450..600 nodes,
 (d) the corpus,
 (e) [third audit] the PRODUCTION node type: control-flow graphs lifted by the
-    real `into_cfg` from generated Circom functions; the graph is read off the
+    real `into_cfg` from generated Circom functions and templates - small
+    random ones and [fourth audit] large ones (hundreds of blocks, dominator
+    chains hundreds deep, early returns); the graph is read off the
     basic blocks through the `DirectedGraphNode` trait and the four tables
     through the `Cfg::get_*` wrappers.
 Oracle of the violation search: Spec.DomSpec.spec_view (dominance by node
@@ -42,8 +48,11 @@ LARGE = [127, 128, 129, 255, 256, 257, 300]
 # classes of graphs the rule text names: a run in which one of them was never
 # explored is reported (generator gap), see `required_classes`
 REQUIRED = ["self_loop", "irreducible", "in_degree>=9", "in_degree>=65", "depth>=65", "depth>=257",
-            "n=63", "n=64", "n=65", "n=127", "n=128", "n=129", "n=255", "n=256", "n=257", "n>=300",
-            "production_cfg"]
+            "n=63", "n=64", "n=65", "n=127", "n=128", "n=129", "n=255", "n=256", "n=257", "n>=300", "n>=600",
+            "frontier>=65", "frontier>=257", "n_between_the_boundaries",
+            "production_cfg", "production_n>=257", "production_depth>=17", "production_depth>=65", "production_depth>=257",
+            "production_template", "production_early_return"]
+HUGE = [("rev_chain", 450), ("fwd_chain", 600), ("wide_join", 600), ("wide_frontier", 520)]
 
 
 def run_sweeps(binary, pre, jobs, fallback=None):
@@ -169,7 +178,7 @@ def family_graphs(rng, quick):
     out = []
     names = sorted(c15gen.FAMILIES)
     # 15..40 nodes, every family
-    for _ in range(1500 if quick else 12000):
+    for _ in range(1000 if quick else 12000):
         name = rng.choice(names)
         n = rng.randrange(15, 41)
         out.append((c15gen.make(name, n, rng, rng.random() < 0.7), name, n <= c15gen.FAMILIES[name][1]))
@@ -184,31 +193,104 @@ def family_graphs(rng, quick):
             if name in ("dense", "two_level_join") and n > 129:
                 continue                      # tens of thousands of edges: minutes per graph
             out.append((c15gen.make(name, n, rng, name != "rev_chain" and rng.random() < 0.5), name, False))
+    # [fourth audit] sizes between the boundaries (41..62, 66..126, 130..254, 258..299 were never explored)
+    for _ in range(40 if quick else 300):
+        n = rng.choice([rng.randrange(41, 63), rng.randrange(66, 127), rng.randrange(130, 255), rng.randrange(258, 300)])
+        name = rng.choice([x for x in names if not (x in ("dense", "two_level_join") and n > 129)])
+        out.append((c15gen.make(name, n, rng, rng.random() < 0.5), name, n <= min(SPEC_MAX, c15gen.FAMILIES[name][1])))
+    # [fourth audit] 450..600 nodes: 450 passes of the iteration, walks and sets of 600, frontiers of 517
+    for name, n in HUGE:
+        out.append((c15gen.make(name, n, rng, False), name, False))
     return out
 
 
 # ---- production node type: generated Circom functions --------------------
 
-def circom_stmt(rng, depth, counter):
-    """One statement of a small Circom function over the variables x, y."""
+def circom_stmt(rng, depth, counter, returns=False):
+    """One statement of a small Circom definition over the variables x, y;
+    with `returns` (functions only) some branches end in an early return - the
+    lifter appends the return like any statement, the graph stays rooted."""
     k = rng.random()
+    if returns and depth > 0 and k < 0.06:
+        counter[0] += 1
+        return "if (%s == %d) { return %s + %d; }" % (rng.choice("xy"), rng.randrange(0, 9), rng.choice("xy"), counter[0])
     if depth <= 0 or k < 0.35:
         counter[0] += 1
         return "%s = %s + %d;" % (rng.choice("xy"), rng.choice("xy"), counter[0])
-    body = " ".join(circom_stmt(rng, depth - 1, counter) for _ in range(rng.randrange(1, 4)))
+    body = " ".join(circom_stmt(rng, depth - 1, counter, returns) for _ in range(rng.randrange(1, 4)))
     cond = "%s %s %d" % (rng.choice("xy"), rng.choice(["<", "==", ">"]), rng.randrange(0, 9))
     if k < 0.6:
         return "if (%s) { %s }" % (cond, body)
     if k < 0.8:
-        other = " ".join(circom_stmt(rng, depth - 1, counter) for _ in range(rng.randrange(1, 3)))
+        other = " ".join(circom_stmt(rng, depth - 1, counter, returns) for _ in range(rng.randrange(1, 3)))
         return "if (%s) { %s } else { %s }" % (cond, body, other)
     return "while (%s) { %s }" % (cond, body)
 
 
+def wrap(rng, body, template):
+    if template:
+        return "template T(x) { signal input a; signal output b; var y = 0; %s b <== a + y; }" % body
+    return "function f(x) { var y = 0; %s return x + y; }" % body
+
+
 def circom_function(rng):
     counter = [0]
-    body = " ".join(circom_stmt(rng, rng.randrange(1, 4), counter) for _ in range(rng.randrange(1, 4)))
-    return "function f(x) { var y = 0; %s return x + y; }" % body
+    template = rng.random() < 0.25
+    body = " ".join(circom_stmt(rng, rng.randrange(1, 4), counter, returns=not template) for _ in range(rng.randrange(1, 4)))
+    return wrap(rng, body, template)
+
+
+def nest(rng, d, kind, counter):
+    """d statements nested in each other: a dominator chain of about 2d blocks,
+    and (for `if` nests with an else branch) joins stacked behind each other."""
+    s = "y = y + 1;"
+    for i in range(d):
+        counter[0] += 1
+        k = kind if kind != "mixed" else rng.choice(["if", "ifelse", "while"])
+        cond = "%s %s %d" % (rng.choice("xy"), rng.choice(["<", "==", ">"]), i % 9)
+        if k == "if":
+            s = "if (%s) { x = x + %d; %s }" % (cond, counter[0], s)
+        elif k == "ifelse":
+            s = "if (%s) { x = x + %d; %s } else { y = y + %d; }" % (cond, counter[0], s, counter[0])
+        else:
+            s = "while (%s) { %s x = x + %d; }" % (cond, s, counter[0])
+    return s
+
+
+def big_circom(rng, shape, size, template):
+    """[fourth audit] A definition whose control-flow graph has hundreds of
+    blocks: the `Cfg::get_*` wrappers used to see at most 52 blocks and chains of
+    depth 14.  shape: `seq` (size statements in sequence: a dominator chain as
+    long as the graph), `nest-if` / `nest-ifelse` / `nest-while` / `nest-mixed`
+    (size statements inside each other), `early` (size early returns in
+    sequence), `blend` (a sequence of nests and random statements)."""
+    counter = [0]
+    if shape == "seq":
+        body = " ".join(circom_stmt(rng, 1, counter, returns=not template) if rng.random() < 0.5
+                        else "if (x < %d) { y = y + %d; }" % (i % 9, i) for i in range(size))
+    elif shape.startswith("nest-"):
+        body = nest(rng, size, shape[5:], counter)
+    elif shape == "early":
+        body = " ".join("if (x == %d) { return y + %d; }" % (i, i) for i in range(size))
+    else:
+        parts = []
+        while size > 0:
+            d = min(size, rng.randrange(3, 40))
+            parts.append(nest(rng, d, "mixed", counter) if rng.random() < 0.6
+                         else " ".join(circom_stmt(rng, 3, counter, returns=not template) for _ in range(d // 3 + 1)))
+            size -= d
+        body = " ".join(parts)
+    return wrap(rng, body, template)
+
+
+def big_programs(rng, quick):
+    out = []
+    for shape, size in [("seq", 130), ("seq", 170), ("nest-if", 20), ("nest-ifelse", 70), ("nest-ifelse", 140), ("nest-while", 90),
+                        ("nest-while", 135), ("nest-mixed", 60), ("nest-mixed", 150), ("early", 130), ("blend", 130), ("blend", 200),
+                        ("seq", 300)] + ([] if quick else [("blend", 400), ("nest-mixed", 300), ("seq", 500)]):
+        template = shape != "early" and rng.random() < 0.4
+        out.append(big_circom(rng, shape, size + rng.randrange(0, 8), template))
+    return out
 
 
 # ---- evaluation -----------------------------------------------------------
@@ -245,6 +327,8 @@ class Tally:
         self.nontrivial = set()
         self.depth = {}
         self.indeg = {}
+        self.maxdf = {}
+        self.prod_envelope = {}
         self.classes = {k: 0 for k in REQUIRED}
         self.sizes = {}
         self.unrooted = []          # explored graphs outside the hypothesis `rooted`
@@ -253,13 +337,14 @@ class Tally:
         self.spec_judged = 0
         self.mirror_judged = 0
 
-    def note_shape(self, line, ref):
+    def note_shape(self, line, ref, prod=False):
         f = fields(ref)
         if f is None:
             return
-        n, indeg, selfloop, irreducible, depth = c15gen.features(line, f["dom"])
+        n, indeg, selfloop, irreducible, depth, maxdf = c15gen.features(line, f["dom"], f["df"])
         self.depth[depth] = self.depth.get(depth, 0) + 1
         self.indeg[indeg] = self.indeg.get(indeg, 0) + 1
+        self.maxdf[maxdf] = self.maxdf.get(maxdf, 0) + 1
         c = self.classes
         c["self_loop"] += selfloop
         c["irreducible"] += irreducible
@@ -267,13 +352,27 @@ class Tally:
         c["in_degree>=65"] += indeg >= 65
         c["depth>=65"] += depth >= 65
         c["depth>=257"] += depth >= 257
+        c["frontier>=65"] += maxdf >= 65
+        c["frontier>=257"] += maxdf >= 257
         if "n=%d" % n in c:
             c["n=%d" % n] += 1
         c["n>=300"] += n >= 300
+        c["n>=600"] += n >= 600
+        c["n_between_the_boundaries"] += (40 < n < 63) or (65 < n < 127) or (129 < n < 255) or (257 < n < 300)
+        if prod:
+            c["production_cfg"] += n >= 4
+            c["production_n>=257"] += n >= 257
+            c["production_depth>=17"] += depth >= 17
+            c["production_depth>=65"] += depth >= 65
+            c["production_depth>=257"] += depth >= 257
+            self.prod_envelope["blocks"] = max(self.prod_envelope.get("blocks", 0), n)
+            self.prod_envelope["depth"] = max(self.prod_envelope.get("depth", 0), depth)
+            self.prod_envelope["frontier"] = max(self.prod_envelope.get("frontier", 0), maxdf)
+            self.prod_envelope["in_degree"] = max(self.prod_envelope.get("in_degree", 0), indeg)
         if sum(1 for s in f["df"].split("|") if s) > 0:
             self.nontrivial.add(ref)
 
-    def case(self, line, impl, mirrors, spec, rooted, shape=True):
+    def case(self, line, impl, mirrors, spec, rooted, shape=True, prod=False):
         """One explored graph.  `spec` is None when the proved oracle was not
         run (too large); `rooted` is None in the sweeps (both sides list only
         the graphs their own filters accept, and the lists are compared)."""
@@ -308,7 +407,7 @@ class Tally:
                                                     "C15_dominators_exact, C15_idom_exact, C15_dom_tree_children_invert_idom_all, "
                                                     "C15_frontier_exact; the graph passed rooted_fast_b)"})
         if shape:
-            self.note_shape(line, ref)
+            self.note_shape(line, ref, prod)
 
 
 def run(ctx, proofs):
@@ -397,7 +496,7 @@ def run(ctx, proofs):
 
     # (e) the production node type
     nprog = 300 if quick else 2000
-    progs = [circom_function(ctx.rng) for _ in range(nprog)]
+    progs = [circom_function(ctx.rng) for _ in range(nprog)] + big_programs(ctx.rng, quick)
     cfg_out = robust_lines(HARNESS_BIN, ["cfg"], progs)
     if len(cfg_out) != len(progs):
         raise common.BuildError("cfg-mode output is incomplete", "%d programs, %d lines" % (len(progs), len(cfg_out)))
@@ -419,13 +518,14 @@ def run(ctx, proofs):
     prod_sizes = {}
     for k, (src, gline, res) in enumerate(cfg_cases):
         before = len(T.failing), len(T.disagreements), len(T.unrooted)
-        T.case(gline, res, {m: rhs(by_mode_c[m][k]) for m in MIRRORS}, spec_c.get(k), rhs(by_mode_c["rooted"][k]))
+        T.case(gline, res, {m: rhs(by_mode_c[m][k]) for m in MIRRORS}, spec_c.get(k), rhs(by_mode_c["rooted"][k]), prod=True)
+        T.classes["production_template"] += src.startswith("template")
+        T.classes["production_early_return"] += "{ return" in src
         for lst, b in zip((T.failing, T.disagreements), before):
             for item in lst[b:]:
                 item["circom"] = src          # replayed through the production path
         n = gline.split()[0]
         prod_sizes[n] = prod_sizes.get(n, 0) + 1
-    T.classes["production_cfg"] = sum(1 for c in cfg_cases if int(c[1].split()[0]) >= 4)
     evaluations += len(cfg_cases)
     lap("production graphs")
 
@@ -464,7 +564,7 @@ def run(ctx, proofs):
                       % (len(T.unrooted), T.unrooted[0][:300]),
                       {"broken": "hypothesis rooted (Spec.DomFast.rooted_fast_b)", "first": T.unrooted[0], "count": len(T.unrooted)}, no_input=True)
     if T.rooted_tests_disagree:
-        ctx.violation("rooted_b and rooted_fast_b, proved equivalent (C15_rooted_b_exact, C15_rooted_fast_b_exact), disagree on %d graph(s): "
+        ctx.violation("rooted_b and rooted_fast_b, proved equivalent (C15_rooted_b_sound + C15_rooted_b_complete, C15_rooted_fast_b_exact), disagree on %d graph(s): "
                       "extraction or driver fault" % len(T.rooted_tests_disagree),
                       {"broken": "model driver dom (rooted vs spec)", "first": T.rooted_tests_disagree[0]}, no_input=True)
     missing = [k for k in REQUIRED if T.classes[k] == 0]
@@ -479,9 +579,11 @@ def run(ctx, proofs):
         "rule": "every digraph on n <= %d nodes without edges into node 0 in which all nodes are reachable from 0 "
                 "(self loops, irreducible loops, parallel joins included)%s, plus %d seeded random rooted digraphs with 2..14 nodes "
                 "(spanning tree from 0 of random depth, forward/cross edges, per-node back-edge probability from "
-                "{0,.05,.1,.2,.3,.4,.5}, node numbers shuffled), plus %d graphs of eleven families (lib/props/c15gen.py) with 15..40 "
-                "nodes, with 63/64/65 nodes and with 127/128/129/255/256/257/300 nodes, plus the control-flow graphs of %d generated "
-                "Circom functions read through the production node type and the Cfg::get_* wrappers, plus the corpus; "
+                "{0,.05,.1,.2,.3,.4,.5}, node numbers shuffled), plus %d graphs of twelve families (lib/props/c15gen.py; ten of them above 129 nodes, four at 450..600) with 15..40 "
+                "nodes, with 63/64/65 nodes, with 127/128/129/255/256/257/300 nodes, at scattered sizes in between and with 450..600 nodes, "
+                "plus the control-flow graphs of %d generated Circom functions and templates (small random ones; large ones with up to "
+                "several hundred blocks, nests, sequences, early returns) read through the production node type and the Cfg::get_* "
+                "wrappers, plus the corpus; "
                 "distinct-nontrivial = distinct result (dominator sets, idom, children, frontiers) among graphs with at least one "
                 "non-empty dominance frontier"
                 % (top, ", plus %d seeded slices of 2048" % NSLICES + " consecutive edge sets of the n = 5 space" if quick else "",
@@ -501,6 +603,8 @@ def run(ctx, proofs):
         "back_edge_probability_histogram": pb_hist,
         "dominator_tree_depth_histogram": {str(k): v for k, v in sorted(T.depth.items())},
         "max_in_degree_histogram": {str(k): v for k, v in sorted(T.indeg.items())},
+        "largest_frontier_histogram": {str(k): v for k, v in sorted(T.maxdf.items())},
+        "production_envelope": T.prod_envelope,
         "classes_explored": T.classes,
         "hypothesis_rooted": {"evaluated_by_rooted_fast_b": T.rooted_evaluated,
                               "evaluated_by_rooted_b_in_sweeps": n_sweep,
@@ -518,13 +622,21 @@ def run(ctx, proofs):
         "std::collections::HashSet<usize> behaves as a finite set (insert, remove, contains, len, ==, intersection, union, "
         "difference, iteration = some permutation of the members), modelled by N bit masks: observed by the correspondence, not proved",
         "the harness node type gives predecessor/successor sets that mirror each other; graphs with unreachable nodes or "
-        "edges into node 0 are outside the property (there the result depends on the hash order) and are not generated; an explored "
+        "edges into node 0 are outside the property and are not generated (with unreachable nodes the real result depends on the hash "
+        "order; with an edge into node 0 it is deterministic, but an entry with exactly one predecessor gets an empty frontier row "
+        "where the definition has members: the `len() > 1` short cut); an explored "
         "graph that fails the proved rootedness test is reported",
         "graphs with more than %d nodes are judged against the mirror (proved equal to the definitions on rooted graphs), not "
         "against the separately extracted oracle, whose list-based reachability is quartic" % SPEC_MAX,
-        "the production instantiation DominatorTree<BasicBlock> is compared on the control-flow graphs of generated functions "
-        "(if / if-else / while over two variables, at most %d blocks); the generic function cannot tell the node types apart"
-        % max([int(k) for k in prod_sizes] or [0]),
+        "the production instantiation DominatorTree<BasicBlock> and the Cfg::get_* wrappers are compared on the control-flow graphs of "
+        "generated functions and templates (if / if-else / while / early return over two variables; this run: %s); such graphs are "
+        "reducible and their frontiers have at most two members (structured code without break) - large frontiers and irreducible "
+        "loops reach the generic function through the harness node type only; a cap in the wrappers keyed on a size beyond this envelope would pass" % json.dumps(T.prod_envelope),
+        "thresholds: the largest graphs explored have 600 nodes (450 passes of the iteration, walks and dominator sets of 600, "
+        "frontiers of 517, joins of 597 predecessors); an edit keyed on a larger number (e.g. a cap of 1024 passes) is not reached; "
+        "every non-threshold 1-2 line edit of dominator_tree.rs:59-159 the reviewers and the owner tried shows at n <= 5",
+        "the implementation runs under one process-random hash order per graph (the mirror under three fixed orders): a regression "
+        "that depends on the iteration order is met at its per-order hit rate",
     ]
 
 
